@@ -26,7 +26,16 @@ DESIGN_REF = "DESIGN.md §5 C16"
 
 def gen_series(rng):
     n = rng.choice([2, 3, 5, 24, 100, 1000])
-    kind = rng.choice(["normal", "normal", "zero_mean", "zero_spread", "negative", "tiny", "const_resid", "perfect"])
+    kind = rng.choice(["normal", "normal", "zero_mean", "zero_spread", "negative", "tiny", "const_resid", "perfect", "near_flat"])
+    if kind == "near_flat":
+        # a large, almost flat load (level / spread ~ 1e4..1e8): every statistic is still well defined, but a formula that
+        # subtracts two large sums (one-pass variance / covariance) loses all its digits here
+        level, spread = rng.choice([(1.2e6, 1.0), (8.6e7, 40.0), (3.0e4, 2.0), (5.0e5, 0.05)])
+        n = max(n, 24)
+        o = level + np.array([rng.uniform(0, spread) for _ in range(n)])
+        p = o + np.array([rng.gauss(0, spread / 3) for _ in range(n)])
+        o, p = np.round(o, 6), np.round(p, 6)
+        return kind, o, p, rng.choice([1, 2, 5])
     if kind == "zero_spread":
         o = np.full(n, round(rng.uniform(1, 50), 2))
     elif kind == "zero_mean":
@@ -73,6 +82,15 @@ def textbook(o, p, k):
     return out
 
 
+def r2_tolerance(o, p):
+    """how far a CENTRED (two-pass) correlation computed in doubles may be from the exact one: rounding of the means is
+    amplified by level/spread (not by its square, which is what a one-pass formula suffers)"""
+    eps = 2.220446049250313e-16
+    with np.errstate(all="ignore"):
+        cond = max(float(np.max(np.abs(x)) / max(np.std(x), 1e-300)) for x in (o, p))
+    return 1e-9 + 4 * eps * len(o) * cond
+
+
 def safely_positive(den):
     return den > 1e-3
 
@@ -113,6 +131,8 @@ def run(ctx):
         for f, v in exp.items():
             g = got[f]
             okv = (g == v) if f in ("n", "ddof") else (close(float(g), v, 1e-9) or abs(float(g) - v) <= 1e-9 * scale * scale * max(1, len(o)) * 1e-3)
+            if f == "r_squared":
+                okv = abs(float(g) - v) <= r2_tolerance(o[m], p[m]) if (g == g and v == v) else (g != g) == (v != v)
             if f == "r_squared" and (v != v or exp["sse"] == 0 or np.std(o[m]) < 1e-9 or np.std(p[m]) < 1e-9):
                 okv = True              # correlation undefined / ill-conditioned for zero spread
             if not okv:
@@ -140,7 +160,7 @@ def run(ctx):
                 break
         sigs.add((kind, len(o) > 24, int(m.sum()) < len(o), k >= m.sum(), got["cvrmse"] is None, got["pnrmse"] is None))
         lines.append(f"metrics {k} " + " ".join(f"{tok(a)} {tok(b)}" for a, b in zip(o, p)))
-        metas.append(("metrics", kind, got, dict(n=len(o), k=k)))
+        metas.append(("metrics", kind, got, dict(n=len(o), k=k, r2tol=r2_tolerance(o[m], p[m]), sumscale=float(np.sum(np.abs(o[m])) + np.sum(np.abs(p[m]))))))
         if len(res["samples"]) < 3:
             res["samples"].append(dict(kind=kind, n=len(o), num_params=k, rmse=float(got["rmse"]), cvrmse=got["cvrmse"]))
 
@@ -210,8 +230,13 @@ def run(ctx):
                         same = True     # (almost) constant residuals: the lag-1 autocorrelation is 0/0, both sides return rounding noise
                     else:
                         a, b = unhex(lv), float(g)
-                        same = close(a, b, 1e-7) or (f in ("r_squared", "autocorr") and (a != a or b != b or abs(a - b) < 1e-6)) \
-                            or abs(a - b) <= 1e-9
+                        if f == "r_squared":
+                            same = a != a or b != b or abs(a - b) <= max(1e-9, 2 * d.get("r2tol", 0.0))
+                        elif f == "savings":
+                            # a difference of two sums: the summation order moves it by ~eps * (sum|o| + sum|p|)
+                            same = close(a, b, 1e-7) or abs(a - b) <= 1e-9 + 1e-13 * d.get("sumscale", 0.0)
+                        else:
+                            same = close(a, b, 1e-7) or (f == "autocorr" and (a != a or b != b or abs(a - b) < 1e-6)) or abs(a - b) <= 1e-9
                     if not same:
                         res["disagreements"].append(dict(op="metrics", kind=kind, field=f, lean=lv if lv == "none" else unhex(lv),
                                                          impl=None if g is None else float(g), case=d))
